@@ -183,6 +183,16 @@ def run_case(spec, idx, ctx):
         return scenes.build_library(scene, I, detector_mask=mask, seed=int(rng.integers(1 << 30)), **build)
 
     pt = build_lib(sc)
+    if build.get("dset_pre"):
+        # state after an error: calls that raise (caught by the caller) must not change what the pipeline computes afterwards
+        for bad in (dict(loss_type="no_such_loss"), dict(batch_size=0), dict(constraints={"no_such_model": {}})):
+            # (a rejected optimizer type is not used here: on the unchanged tree it stays stored in the model and every later
+            # reconstruct() raises until valid parameters are passed - loud, and outside this property)
+            try:
+                pt.reconstruct(num_iters=1, **bad)
+                ctx.count("bad_reconstruct_call_accepted")
+            except Exception:  # noqa: BLE001
+                ctx.count("bad_reconstruct_call_raised")
     # ---- cross-oracles on the library's preprocessing ------------------------------------------------
     lib_shape = tuple(int(x) for x in pt.obj_shape_full)
     if lib_shape != tuple(sc.obj_shape):
